@@ -38,6 +38,7 @@ from .core import MachineryError
 SEGS = ["a", "sub", "..", ".", "..a", "a.."]
 SEGS_REDUCED = ["a", "sub", "..", "..a"]
 SEPS = ["/", "\\"]
+ODD_NAMES = ["%2e%2e", "a.", "...", "a ", "..%2f", ".a"]     # ordinary names for mako (no decoding, no trimming); random URIs only
 MAIN_CTX = ["direct", "template", "c0", "c1", "c2", "c3"]
 ALL_CTX = MAIN_CTX + ["r0", "r1", "d1", "b1", "x1", "t2"]
 INVARIANTS = ["TypeOK", "Contained", "ModulePathInside", "OutsideRaises", "OutsideHitRefused",
@@ -64,7 +65,7 @@ def enum_cfg(maxsegs, cfg, genctx, modon=True, segs=SEGS, start="StartEmpty"):
 
 
 def trace_cfg(cfg, modon=True, segs=SEGS):
-    return (_constants(0, cfg, ALL_CTX, modon, segs) + "SPECIFICATION TSpec\nCHECK_DEADLOCK FALSE\n")
+    return (_constants(0, cfg, ALL_CTX, modon, segs + ODD_NAMES) + "SPECIFICATION TSpec\nCHECK_DEADLOCK FALSE\n")
 
 
 def read_rows(res):
@@ -168,18 +169,23 @@ def _install_audit(base):
 
 
 # --------------------------------------------------------------------------- the world on disk
-CALLER_MODES = ["inc", "gt", "ns", "if", "inh", "nst"]
+CALLER_MODES = ["inc", "gt", "ns", "if", "inh", "nst", "nn", "nsc"]
+STATIC_MODES = ["sinc", "sinh", "snst"]      # file="literal": one compilation per URI, short URIs only
 T_INC = ("% if m == 'inc':\n<%include file=\"${u}\"/>\\\n% elif m == 'gt':\n${local.get_template(u).render()}\\\n"
-         "% elif m == 'ns':\n${local.get_namespace(u).body()}\\\n% elif m == 'if':\n<% local.include_file(u) %>\\\n% endif\n")
+         "% elif m == 'ns':\n${local.get_namespace(u).body()}\\\n% elif m == 'if':\n<% local.include_file(u) %>\\\n"
+         "% elif m == 'nn':\n${local.get_namespace(local.uri).get_template(u).render()}\\\n% endif\n")
 T_INH = "<%inherit file=\"${context['u']}\"/>not rendered"
 T_NST = "<%namespace name=\"ns\" file=\"${context['u']}\"/>${ns.body()}"
+T_NSC = "<%namespace name=\"ns\" file=\"${context['u']}\"/><%ns:body/>"            # reached through a <%ns:def> call tag
+T_STATIC = {"sinc": "<%%include file=\"%s\"/>", "sinh": "<%%inherit file=\"%s\"/>not rendered",
+            "snst": "<%%namespace name=\"ns\" file=\"%s\"/>${ns.body()}"}
 
 
 class World:
     """The exported world under `base` (which stands for the model's file-system root) and a real
     TemplateLookup over it."""
 
-    def __init__(self, base, world, modon, with_callers=True):
+    def __init__(self, base, world, modon, with_callers=True, cwd=True):
         self.base = base
         self.desc = world
         self.modon = modon
@@ -192,7 +198,9 @@ class World:
                 f.write("X%d;" % k)
             os.utime(rp, (1_000_000_000, 1_000_000_000))
             self.content["X%d;" % k] = p
-        self.roots = [base + r for r in world["roots"]]
+        self.roots = [base + r if r.startswith("/") else r for r in world["roots"]]
+        if cwd and any(not r.startswith("/") for r in world["roots"]):
+            os.chdir(base)                  # relative roots: the working directory is the model's file-system root
         self.rootdirs = [base + d for d in world["dirs"]]
         self.moddir = (base + world["moddir"]) if modon else None
         self.modroot = base + world["modroot"]
@@ -208,7 +216,7 @@ class World:
             for c, uri in self.desc["callers"].items():
                 # three templates per caller share the caller's directory: the relative URI is
                 # resolved against dirname(caller URI) in all of them
-                for suffix, text in (("", T_INC), ("h", T_INH), ("n", T_NST)):
+                for suffix, text in (("", T_INC), ("h", T_INH), ("n", T_NST), ("k", T_NSC)):
                     self.lk.put_string(uri + suffix, text)
 
     def wipe_modules(self):
@@ -258,9 +266,13 @@ class World:
 
     def call(self, ctx, mode, u):
         cu = self.desc["callers"][ctx]
-        name = cu + {"inh": "h", "nst": "n"}.get(mode, "")
+        name = cu + {"inh": "h", "nst": "n", "nsc": "k"}.get(mode, "")
+        if mode in T_STATIC:
+            name = cu + "s"
 
         def fn(ob):
+            if mode in T_STATIC:
+                self.lk.put_string(name, T_STATIC[mode] % u)
             t = self.lk.get_template(name)
             out = t.render(u=u, m=mode)
             ob["kind"] = "F"
@@ -396,15 +408,17 @@ def tokens(u):
 
 
 SITE_OF_MODE = {"inc": "include", "gt": "Namespace.get_template", "ns": "Namespace.get_namespace",
-                "if": "Namespace.include_file", "inh": "inherit", "nst": "namespace-tag"}
+                "if": "Namespace.include_file", "inh": "inherit", "nst": "namespace-tag",
+                "nn": "Namespace.get_namespace().get_template", "nsc": "namespace-call-tag",
+                "sinc": "include(static)", "sinh": "inherit(static)", "snst": "namespace-tag(static)"}
 
 
 # --------------------------------------------------------------------------- replay worker
 def _replay_chunk(job):
-    (name, base, world, modon, items, modes_all_upto) = job
+    (name, base, world, modon, items, modes_all_upto, thin) = job
     _install_audit(base)
     wl = World(os.path.join(base, "L"), world, modon)
-    wt = World(os.path.join(base, "Tm"), world, modon, with_callers=False)
+    wt = World(os.path.join(base, "Tm"), world, modon, with_callers=False, cwd=False)
     mism = []
     n = 0
     for idx, (u, exp) in enumerate(items):
@@ -414,19 +428,25 @@ def _replay_chunk(job):
             wl.wipe_modules()
             wt.wipe_modules()
         nseg = sum(1 for t in tokens(u) if t not in SEPS)
-        for ctx, allowed in exp.items():
+        for ci, (ctx, allowed) in enumerate(sorted(exp.items())):
             if not allowed:
                 continue
+            if thin and nseg >= 4 and ctx in world["callers"] and (ci + idx) % 2:
+                continue        # quick tier: each 4-segment URI is replayed from half of the callers (TLC checks all)
             trials = []
             if ctx == "direct":
                 trials.append(("get_template", wl, lambda: wl.get(u)))
-                trials.append(("has_template", wl, lambda: wl.has(u)))
+                if nseg <= 3 or idx % 4 == 0:
+                    trials.append(("has_template", wl, lambda: wl.has(u)))
             elif ctx == "template":
                 trials.append(("Template()", wt, lambda: wt.template(u)))
                 trials.append(("put_string", wt, lambda: wt.put(u)))
             else:
-                modes = CALLER_MODES if nseg <= modes_all_upto else [CALLER_MODES[(idx + len(ctx)) % len(CALLER_MODES)]]
+                modes = (CALLER_MODES + STATIC_MODES) if nseg <= modes_all_upto else [CALLER_MODES[(idx + len(ctx)) % len(CALLER_MODES)]]
+                cu = world["callers"][ctx]
                 for m in modes:
+                    if m == "nn" and not cu.startswith("/") and "/" in cu:
+                        continue        # get_namespace(local.uri) re-resolves a relative caller URI against itself
                     trials.append((SITE_OF_MODE[m], wl, (lambda m=m: wl.call(ctx, m, u))))
             for site, w, fn in trials:
                 ob = fn()
@@ -467,7 +487,7 @@ def random_uri(rng, nmax, segs):
             continue
         if toks and toks[-1] not in SEPS:
             toks.append(rng.choice(SEPS))
-        toks.append(rng.choice(segs + ["..", "sub", "sub"]))
+        toks.append(rng.choice(segs + ["..", "sub", "sub"]) if rng.random() < 0.93 else rng.choice(ODD_NAMES))
     if rng.random() < 0.3:
         if toks and toks[-1] not in SEPS:
             toks.append(rng.choice(SEPS))
@@ -492,6 +512,9 @@ def record_requests(run, world, modon, uris, ctxs):
             site = "Template()"
         else:
             mode = CALLER_MODES[(i // len(ctxs)) % len(CALLER_MODES)]
+            cu = world["callers"][ctx]
+            if mode == "nn" and not cu.startswith("/") and "/" in cu:
+                mode = "inc"
             ob = wl.call(ctx, mode, u)
             site = SITE_OF_MODE[mode]
         w = wt if ctx == "template" else wl
@@ -555,23 +578,29 @@ def check(run):
 
     # ---------------------------------------------------------------- TLC jobs (run concurrently)
     mc_bound = 3 if thorough else 2
-    mc_jobs = [("mc-A", "A", ALL_CTX), ("mc-B", "B", MAIN_CTX + ["r1", "x1"])]
+    mc_jobs = [("mc-E", "E", ALL_CTX)]
     if thorough:
-        mc_jobs += [("mc-C", "C", ALL_CTX), ("mc-D", "D", ALL_CTX)]
+        mc_jobs += [("mc-B", "B", MAIN_CTX + ["r1", "x1"]), ("mc-C", "C", ALL_CTX), ("mc-D", "D", ALL_CTX), ("mc-A", "A", ALL_CTX), ("mc-R", "R", ALL_CTX)]
     plans = [  # name, cfg, maxsegs, segs, contexts, modon, all caller modes up to n segments, TLC workers
         ("enum-A", "A", 4, SEGS, ["direct", "c0", "c1", "c2", "c3"], True, 2, 10),
-        ("enum-B", "B", 3, SEGS, ["direct", "c1", "c2", "r1", "x1"], True, 1, 2),
-        ("enum-C", "C", 3, SEGS, ["direct", "c0", "c1", "d1", "b1", "t2"], False, 1, 2),
+        ("enum-B", "B", 3, SEGS, ["direct", "c2", "r1", "x1"], True, 1, 2),
+        ("enum-C", "C", 3, SEGS, ["direct", "c0", "d1", "b1", "t2"], False, 1, 2),
         ("enum-D", "D", 3, SEGS, ["direct", "template", "c1", "r0"], True, 1, 2),
+        ("enum-E", "E", 3, SEGS, ["direct", "c3"], True, 1, 2),
+        ("enum-R", "R", 3, SEGS, ["direct", "c2"], True, 1, 2),
+        ("enum-A5", "A", 5, ["a", ".."], ["direct", "c2"], False, 0, 3),        # longer URIs on a reduced alphabet (6 in thorough)
     ]
     if thorough:
         plans = [
             ("enum-A", "A", 4, SEGS, ALL_CTX, True, 3, 6),
             ("enum-A5", "A", 5, SEGS_REDUCED, MAIN_CTX, True, 0, 6),
             ("enum-A6", "A", 6, ["sub", ".."], ["direct", "c1", "c3"], True, 0, 4),
+            ("enum-A6a", "A", 6, ["a", ".."], ["direct"], False, 0, 4),
             ("enum-B", "B", 4, SEGS, ["direct", "c1", "r1", "x1"], True, 2, 4),
             ("enum-C", "C", 4, SEGS, ["direct", "c0", "d1", "b1", "t2"], False, 2, 4),
             ("enum-D", "D", 4, SEGS, ["direct", "template", "c1"], True, 2, 4),
+            ("enum-E", "E", 4, SEGS, ["direct", "c1", "c3"], True, 2, 4),
+            ("enum-R", "R", 4, SEGS, ["direct", "c2", "r1"], True, 2, 4),
         ]
     with ThreadPoolExecutor(max_workers=12) as ex:
         futs = {}
@@ -586,9 +615,16 @@ def check(run):
         futs["mc-witness"] = ex.submit(run.tlc, "MC_Containment",
                                        mc_cfg(2, "A", MAIN_CTX).replace("INVARIANT OutsideHitRefused\n", "INVARIANT NoOutsideHit\n"),
                                        name="mc-witness", timeout=600, workers=wk(2), count=False, heap="1g")
+        # Template(filename=, module_directory=) WITHOUT uri: the URI (hence the module path) derives from the filename
+        nouri = nouri_filenames()
+        futs["nouri"] = ex.submit(run.tlc, "Enum_Containment", enum_cfg(0, "A", ["template"], True, start="StartFromFile"),
+                                  name="nouri", timeout=600, workers=1, count=False, heap="1g",
+                                  env={"C09_START": "start.json"}, extra_files={"start.json": json.dumps([tokens(f) for f in nouri])})
         results = {n: f.result() for n, f in futs.items()}
+    import time as _t
+    run.extra["phase_s"] = {"tlc": round(_t.time() - run.t0, 1)}
     for n, res in results.items():
-        if n != "mc-witness":
+        if n not in ("mc-witness", "nouri"):
             run.states += res.distinct
             run.transitions += res.generated
 
@@ -633,10 +669,11 @@ def check(run):
         run.rng.shuffle(items)          # balance the load; verdicts do not depend on the order
         per = 6000
         for k in range(0, len(items), per):
-            jobs.append((name, os.path.join(run.subdir("world-" + name), "p%d" % (k // per)), world, modon, items[k:k + per], modes_upto))
+            jobs.append((name, os.path.join(run.subdir("world-" + name), "p%d" % (k // per)), world, modon, items[k:k + per], modes_upto, not thorough))
     ctxmp = multiprocessing.get_context("fork")
     with ctxmp.Pool(nproc) as pool:
         out = pool.map(_replay_chunk, jobs, chunksize=1)
+    run.extra["phase_s"]["replay_done"] = round(_t.time() - run.t0, 1)
     for (name, n, mism) in out:
         run.traces += n
         d = run.extra.setdefault("requests_replayed", {})
@@ -651,6 +688,13 @@ def check(run):
         for u in ("\\..\\a", "sub/..//../..a", "a../a"):
             if u in rows:
                 run.sample({"direction": "R", "uri": u, "expected": {c: sorted(s) for c, s in rows[u].items()}})
+
+    # ---------------------------------------------------------------- 2b. Template(filename=...) without uri
+    if not results["nouri"].violated:
+        wld, nrows = read_rows(results["nouri"])
+        check_nouri(run, wld, nrows, nouri)
+    else:
+        run.spec_violation(results["nouri"])
 
     # ---------------------------------------------------------------- 3. V: random long URIs, judged by TLC
     nrand = 6000 if thorough else 1500
@@ -708,6 +752,65 @@ def check(run):
                     "TemplateLookup over a real tree with sentinels outside the roots, file operations audited; random long "
                     "URIs recorded from the real code and judged by Trace_Containment.tla. A case is one (URI, context, call form).",
             "exhaustive": True}
+
+
+def nouri_filenames():
+    """File names (in the model's terms) for Template(filename=...) without uri: files inside root 1, spelled plainly
+    and with dot segments / doubled slashes."""
+    out = []
+    for rel in ("a", "..a", "a../a", "sub/a", "sub/a../..a", "sub/sub/a", "sub/sub/sub/a"):
+        out.append("/T/sub/sub/a/" + rel)
+        out.append("/T/sub/sub/./a//" + rel)
+        out.append("/T/sub/sub/sub/../a/" + rel)
+        out.append("/T/sub/../sub/sub/a/sub/../" + rel)
+    return out
+
+
+def check_nouri(run, world, rows, names):
+    from mako.template import Template
+    base = os.path.join(run.subdir("world-nouri"), "p0")
+    _install_audit(base)
+    w = World(os.path.join(base, "L"), world, True)
+    n = 0
+    for f in names:
+        allowed = rows.get(f, {}).get("template")
+        if not allowed or len(allowed) != 1 or not next(iter(allowed)).startswith("F"):
+            raise MachineryError("no single expected outcome for Template(filename=%r): %s" % (f, allowed))
+        exp_mod = next(iter(allowed)).partition("|")[2]
+        # the model's file-system root is w.base: the real URI derived from the filename carries that prefix
+        real_mod = w.modroot + w.base + exp_mod[len(world["modroot"]):]
+        real_f = w.base + f
+
+        def fn(ob):
+            t = Template(filename=real_f, module_directory=w.moddir, lookup=w.lk)
+            ob["kind"] = "F"
+            ob["mod"] = os.path.abspath(t.module.__file__)
+            ob["out"] = t.render()
+        ob = w._run(fn)
+        n += 1
+        bad = None
+        src = os.path.normpath(real_f)
+        for kind, p in ob["log"]:
+            if kind == "w" and not (p + "/").startswith(w.modroot + "/"):
+                bad = "creates-outside-module-directory"
+            if kind == "r" and p.startswith(w.base + "/") and not (p + "/").startswith(w.modroot + "/") and p != src:
+                bad = bad or "reads-other-file"
+        if not bad:
+            if ob["kind"] != "F":
+                bad = "unexpected-exception:" + ob["kind"]
+            elif ob["mod"] != real_mod or not os.path.isfile(real_mod):
+                bad = "wrong-module-path"
+            elif w.content.get((ob["out"] or "").strip()) != src[len(w.base):]:
+                bad = "wrong-content"
+        if bad:
+            d = dict(ob)
+            d.pop("log", None)
+            run.violation("Template(filename):%s" % bad, "Template(filename=%r, module_directory=...) without uri: %s (expected module %s)"
+                          % (f, bad, real_mod), {"filename": f, "observed": d, "expected_module": real_mod})
+            break
+    run.traces += n
+    run.extra["nouri_templates"] = n
+    shutil.rmtree(base, ignore_errors=True)
 
 
 def assumptions_check():
